@@ -171,7 +171,10 @@ def softmax_loops(x, axis):
     for idx in itertools.product(*other):
         def full(k):
             return idx[:axis] + (k,) + idx[axis:]
-        es = [math.exp(x[full(k)]) for k in range(x.shape[axis])]
+        # exp(x_k) / sum exp(x_j) evaluated as exp(x_k - m) / sum exp(x_j - m), m = max of the lane: the same value (shift invariance),
+        # representable for lanes far from zero (exp(730) overflows, exp(-750) is 0 in float64)
+        mx = max(float(x[full(k)]) for k in range(x.shape[axis]))
+        es = [math.exp(float(x[full(k)]) - mx) for k in range(x.shape[axis])]
         tot = math.fsum(es)
         for k in range(x.shape[axis]):
             out[full(k)] = es[k] / tot
